@@ -255,6 +255,7 @@ func exec(c proto.Case, o *proto.Out) []string {
 	respArgs := messages.OnResponse{Headers: map[string]string{}}
 	used := map[string]bool{}
 	nontrivial := false
+	legacy := &legacyState{}
 	for i, op := range c.Ops {
 		w := strings.Fields(op)
 		if len(w) == 0 {
@@ -404,7 +405,7 @@ func exec(c proto.Case, o *proto.Out) []string {
 			args := messages.OnResponse{Headers: map[string]string{}}
 			outs[i] = fmtSpoe(routing.VerifSPOERespActions(args, list))
 		case w[0] == "legacyreq":
-			outs[i] = legacyReq(w[1:])
+			outs[i] = legacyReq(legacy, w[1:])
 			if len(w) > 2 && !strings.HasPrefix(outs[i], "bad-op") {
 				for _, r := range w[2:] {
 					o.Count("legacy-req:" + strings.SplitN(r, "=", 2)[0])
@@ -420,7 +421,7 @@ func exec(c proto.Case, o *proto.Out) []string {
 				}
 			}
 		case w[0] == "legacyresp":
-			outs[i] = legacyResp(w[1:])
+			outs[i] = legacyResp(legacy, w[1:])
 			if len(w) > 3 {
 				nontrivial = true
 			}
@@ -646,7 +647,7 @@ func enumeratePolicy(emit func(proto.Case)) {
 // gateway-made answer), plus all response dispatches for three statuses, plus random longer lists.
 func enumerateLegacy(maxLen int, r *prng.R, emit func(proto.Case)) {
 	alpha := []string{"fixed=418", "fixed=503", "acct=" + hA, "acct=" + hB, "acct=_", "apikey=k|K;x|3",
-		"oauth=s3cr3t", "retry=5,400,499", "retry=7,0,599"}
+		"oauth=s3cr3t", "retry=5,400,499", "retry=7,0,599", "throttle=429"}
 	id := 0
 	idx := make([]int, 0, maxLen)
 	var rec func()
@@ -668,6 +669,26 @@ func enumerateLegacy(maxLen int, r *prng.R, emit func(proto.Case)) {
 			idx = append(idx, i)
 			rec()
 			idx = idx[:len(idx)-1]
+		}
+	}
+	// SEQUENCES of transactions against the same plugin objects: all pairs of remedy lists of length <= 2 over a
+	// small alphabet (early answers from two plugins, retry firing / not firing, header edits, cached auth
+	// headers), then random sequences of 3-5 transactions with different remedy lists and request headers:
+	// a transaction's variables may carry only what its own remedies answered.
+	small := []string{"throttle=429", "fixed=418", "retry=5,400,499", "retry=9,200,299", "retry=7,0,99", "acct=x|1", "apikey=k|K", "cache=on"}
+	var lists []string
+	for a := range small {
+		lists = append(lists, " "+small[a])
+		for b := range small {
+			lists = append(lists, " "+small[a]+" "+small[b])
+		}
+	}
+	pid := 0
+	for _, l1 := range lists {
+		for _, l2 := range lists {
+			pid++
+			emit(proto.Case{ID: fmt.Sprintf("lp%d", pid), Ops: []string{"legacyresp status=200 body=B rh=h|1" + l1,
+				"legacyreq h=early-response|true" + l2, "legacyreq h=early-response|true;q|Q" + l1, "legacyreq h=_" + l2}})
 		}
 	}
 	rec()
@@ -701,9 +722,28 @@ func enumerateLegacy(maxLen int, r *prng.R, emit func(proto.Case)) {
 		emit(proto.Case{ID: fmt.Sprintf("gl%d", k+1), Ops: []string{"legacyreq h=" + h + line,
 			fmt.Sprintf("legacyresp status=%d", prng.Pick(rr, []int{0, 200, 418, 499, 500})) + line}})
 	}
+	rems := append(append([]string{}, alpha...), "throttle=503", "retry=3,429,429", "retry=11,500,599", "retry=9,200,299", "apikey=x|4;z|Z", "oauth=t2", "cache=on", "cache=on")
+	for k := 0; k < 300; k++ {
+		rr := r.Fork()
+		var ops []string
+		for t := rr.Range(3, 5); t > 0; t-- {
+			line := ""
+			for j := rr.Range(1, 4); j > 0; j-- {
+				line += " " + prng.Pick(rr, rems)
+			}
+			h := prng.Pick(rr, []string{"_", "early-response|true", "early-response|true;q|Q", "x|0"})
+			if rr.Chance(30) {
+				ops = append(ops, fmt.Sprintf("legacyresp status=%d body=%s rh=%s", prng.Pick(rr, []int{200, 418, 429, 503}),
+					genStr(rr), genHdrs(rr, 10))+line)
+			} else {
+				ops = append(ops, "legacyreq h="+h+line)
+			}
+		}
+		emit(proto.Case{ID: fmt.Sprintf("ls%d", k+1), Ops: ops})
+	}
 	emit(proto.Case{ID: "lx1", Ops: []string{"legacyreq", "legacyreq h=_", "legacyreq h=_ bogus=1", "legacyreq x=1 fixed=418",
 		"legacyreq h=_ oauth=a%20b", "legacyreq h=_ retry=1,2", "legacyresp", "legacyresp status=zz", "legacyresp status=200",
-		"legacyresp status=200 fixed=x"}})
+		"legacyresp status=200 fixed=x", "legacyresp status=200 rh=zz cache=on", "legacyresp status=200 body=b cache=off", "legacyreq h=_ cache=on"}})
 }
 
 var keyPool = []string{"x", "a", "b", "x-lunar", "X", "a-b", "content-type", "é"}
